@@ -168,6 +168,17 @@ add("C11", "concurrency contract",
     LV + "Interleavings are enumerated by a nondeterministic scheduler inside the symbolic executor (context-bounded); data stay symbolic on every interleaving; schedule counterexamples are replayed natively with a token-passing scheduler.",
     "trusted: engine translation, the scheduler's choice of scheduling points, the happens-before model of channels / sync.Mutex / sync.Once / pools")
 
+add("C12", "server handshake",
+    [H("vfH_upgrade_logic", ["upgrade-success", "upgrade-refused", "upgrade-post-hijack-failure"], 600), H("vfH_tokenlist_diff", ["tokenlist-end"], 300), H("vfH_key_diff", ["key-diff-end"], 300), TWIN("vfH_upgrade_logic")],
+    [H("vfH_upgrade_logic", ["upgrade-success", "upgrade-refused"], 3000, {"tier": 1}), H("vfH_tokenlist_diff", ["tokenlist-end"], 2400, {"tier": 1})],
+    ["Upgrade executed on requests one (thorough: two) dimension(s) away from a valid handshake: method, Connection / Upgrade token lists (symbolic case and whitespace, extra tokens, several header lines, near-miss tokens), version, key (missing, 24 arbitrary characters, base64 of 15 / 17 bytes; valid keys = base64 of 16 symbolic bytes), origin, CheckOrigin, subprotocol offers x server lists, application response headers with 3 arbitrary bytes (incl. CR/LF), extension offers x EnableCompression, hijack failure, transport fault at each of the first 3 post-hijack operations, HandshakeTimeout on/off",
+     "tokenListContainsValue against the reference for every header line of <= 4 (thorough 6) arbitrary bytes and for grammar templates; isValidChallengeKey against the reference for every string of length 0,1,20,22,23,24,25,28 (real encoding/base64 decoder executed from SSA)"],
+    ["net/http's own request parsing, header canonicalisation and http.Error rendering (modelled at object level)", "SHA-1 is an uninterpreted function: that the digest input is key ++ the RFC GUID and its placement are checked, the hash itself is not", "requests more than two dimensions away from valid"],
+    ["header values contain no CR/LF on the request side (net/http never delivers them)", "url.Parse answers as constructed for the template origins only"], STUB_COMMON + ["net/http ResponseWriter/Hijacker/ResponseController/Error -> recorder models (harness/models_http.go)", "crypto/sha1 -> uninterpreted function (congruent, collision-free)", "net/url.Parse -> answers from the harness's template knowledge"],
+    LV + "Reduced scope: the decision logic and the response bytes of Upgrade; HTTP parsing is outside.",
+    "trusted: engine translation, z3, object-level net/http model, reference head parser and predicates",
+    ["a Sec-WebSocket-Version list that contains 13 among other versions", "malformed token lists (empty elements)"])
+
 NA = {}
 
 json.dump(checks, open("checks.json", "w"), indent=1)
